@@ -20,6 +20,7 @@ import (
 
 	"verif/evid"
 	"verif/gen/cy"
+	"verif/gen/plant"
 	"verif/gmodel"
 	"verif/pgsim"
 	"verif/qcase"
@@ -45,11 +46,30 @@ func genCase(t *rapid.T) qcase.Case {
 		q := cy.Generate(t, o)
 		c = qcase.Case{Graph: g, Query: q.Text, Params: q.Params, Features: q.Features}
 		model, err := xlate.Parse(c.Query)
-		if err != nil || qcase.ExcludedBy(c, model, findingOpen) == "" {
+		if err == nil && rapid.IntRange(0, 2).Draw(t, "plant") != 0 {
+			// two cases in three: the graph is extended so that the query's patterns have a match (gen/plant)
+			c.Graph = plant.Plant(t, c.Graph, model, c.Params, cy.EdgeKinds, cy.Props)
+			c.Features = append(c.Features, "planted")
+		}
+		if err != nil {
+			break
+		}
+		if slug, _ := excluded(c, model); slug == "" {
 			break
 		}
 	}
 	return c
+}
+
+// excluded: the open listed finding that keeps the case from being evaluated ("" if none); referenceBaseline is set
+// for the one listed shape that is evaluated against the reference instead of the unoptimised SQL.
+func excluded(c qcase.Case, model *cypher.RegularQuery) (slug string, referenceBaseline bool) {
+	slug = qcase.ExcludedBy(c, model, findingOpen)
+	if slug == rejoinsBoundNode && qcase.ExcludedBy(c, model, func(s string) bool { return s != rejoinsBoundNode && findingOpen(s) }) == "" &&
+		qcase.ExcludedBy(c, model, func(s string) bool { return evid.R.OpenElsewhere("C01-" + s) }) == "" {
+		return "", true
+	}
+	return slug, false
 }
 
 type translated struct {
@@ -126,6 +146,9 @@ func findingOpen(slug string) bool {
 	return evid.R.KnownOpen("C02-" + slug)
 }
 
+// rejoinsBoundNode: the one listed finding whose shape is still evaluated (against the reference), see oracle.
+const rejoinsBoundNode = "unoptimised-step-rejoins-bound-node"
+
 func oracle(c qcase.Case) (evid.Info, error) {
 	info := evid.Info{}
 	model, err := xlate.Parse(c.Query)
@@ -133,11 +156,19 @@ func oracle(c qcase.Case) (evid.Info, error) {
 		info.Skip = "parse-rejected"
 		return info, nil
 	}
-	if slug := qcase.ExcludedBy(c, model, findingOpen); slug != "" {
+	// The listed defect C02-unoptimised-step-rejoins-bound-node is in the UNOPTIMISED SQL only (every row repeated
+	// once per node of the graph) and its effect is known exactly. The shape is not dropped: the optimised SQL is
+	// compared with what the unoptimised translation means (the reference result, which C01 shows it returns outside
+	// its own listed shapes), so that an optimisation that changes the rows of such a query is still reported.
+	slug, referenceBaseline := excluded(c, model)
+	if slug != "" {
 		// a listed, still open defect: the shape is not evaluated, it is counted
 		info.Skip = "excluded:C02-" + slug
 		evid.R.Excluded(checkName)
 		return info, nil
+	}
+	if referenceBaseline {
+		info.Classes = append(info.Classes, "baseline=reference(known duplication in the unoptimised SQL)")
 	}
 	mapper := xlate.FixedMapper(c.AllKinds()...)
 	kindIDs := map[string]int16{}
@@ -253,6 +284,16 @@ func oracle(c qcase.Case) (evid.Info, error) {
 		}
 		if os.Getenv("VERIF_TRIAGE") == "full" {
 			info.Skip += " | " + skipOpt + " | " + skipUn + " | " + c.Query
+		}
+		return info, nil
+	}
+	if referenceBaseline {
+		if msg := qcase.Compare(ref, det, gotOpt); msg != "" {
+			return info, fmt.Errorf("the optimised SQL for %q does not return what the query means on this graph (%s; the unoptimised SQL of this shape has the listed duplication defect %s, so the reference result stands in for it)\n%s\noptimised (lowerings %v):   %s\nparams: %v",
+				c.Query, det, "C02-"+rejoinsBoundNode, msg, info.Classes, opt.sql, opt.params)
+		}
+		if len(opt.raw.Optimization.Lowerings) > 0 && strings.TrimSpace(opt.sql) != strings.TrimSpace(unopt.sql) {
+			info.NonTrivial = true
 		}
 		return info, nil
 	}
